@@ -208,7 +208,7 @@ namespace avel {
         typename std::enable_if<N < mask8x64f::width, int>::type dummy_variable = 0;
 
         auto mask = b << N;
-        return mask8x64f{__mmask8((decay(m) & ~mask) | mask)};
+        return mask8x64f{__mmask8((decay(m) & ~(1u << N)) | mask)};
     }
 
 
